@@ -20,7 +20,7 @@ RULE = ('(a) generated ledgers without price conversions x every subset of OPEN 
         'conversions and lots at cost, observed through SELECT id, date, flag, account, position, weight FROM <clauses>: original '
         'rows are exactly the rows of the full ledger dated in [d, e), in order; Assets / Liabilities totals equal the full-ledger '
         'balance as of e; Income / Expenses totals equal the activity in [d, e) or are empty with CLEAR; the weights of every '
-        'returned transaction sum to nothing; FROM <filter> <clauses> equals the clause result filtered; CLOSE before OPEN is a '
+        'returned transaction sum to nothing; what OPEN puts before the window does not depend on the clauses that follow; FROM <filter> <clauses> equals the clause result filtered; CLOSE before OPEN is a '
         'CompilationError and nothing else is; SELECT / BALANCES / JOURNAL / PRINT prepare the same entries; .run of a named '
         'query closes at the query date.  Non-trivial = result holds at least one original and one generated transaction; '
         'distinct = distinct (ledger, clauses).')
